@@ -121,6 +121,29 @@ def cases(seed, tier):
         c["script"][0]["inject"] = [{"id": "pl", "at": {"msg": n_, "plus": rng.choice([0, 1, 2])}, "do": "pause"}]
         c["script"][0]["decisions"] = [{"do": "resume"}]
         yield c
+    # the move of one motor fails and the plan's reaction to the error begins with the first move of the *other*
+    # motor: that move is relative to where that motor stands like any other, and the motor is put back at the end
+    for j in range(2):
+        off1, off2 = rng.choice([1.0, -0.5, 2.0]), rng.choice([1.5, -2.0, 0.75])
+        g1, g2 = pg.group(), pg.group()
+        handler = [msg(S, "set", "m2", off2, group=g2), msg(S, "wait", None, group=g2), msg(S, "null")]
+        first = [msg(S, "checkpoint"), msg(S, "set", "m1", off1, group=g1), msg(S, "wait", None, group=g1), msg(S, "null")]
+        if j == 0:
+            inner = [{"op": "try", "site": S(), "body": first, "handlers": [{"exc": "FailedStatus", "body": handler, "reraise": False}]}]
+        else:
+            inner = [{"op": "try", "site": S(), "body": first, "finally": handler}]
+        w = {"op": "wrap", "name": "relative_set_wrapper", "args": [], "body": inner}
+        resets = rng.random() < 0.7
+        if resets:
+            w = {"op": "wrap", "name": "reset_positions_wrapper", "args": [], "body": [w]}
+        c = copy.deepcopy(case)
+        c["variant"] = f"first-move-inside-the-error-handler-{j}"
+        c["script"] = [{"do": "call", "plan": [w], "main": True}]
+        for m in ("m1", "m2"):
+            c["devices"][m].pop("faults", None)
+        c["devices"]["m1"]["faults"] = {"set#0": {"kind": "status_fail", "exc": "RuntimeError", "delay": rng.choice([0.0, 0.1])}}
+        c["expect"] = {"offsets": {"m1": [off1], "m2": [off2]}, "sets": [], "resets": resets, "kind": "wrapper"}
+        yield c
     # a history on one engine and one device: a relative move that failed in an earlier call, the motor repositioned
     # by other means, then a relative plan - its offsets count from where the motor stands *now*
     for j in range(2):
